@@ -338,7 +338,24 @@ int ovstateMain(void)
 		else { msg = rnd(len); out = (octet*)malloc(len ? len : 1); memcpy(out, msg, len); }
 		if (!strcmp(kind, "start"))
 		{
-			memcpy(buf, ksnap, klen);		/* the key inside the (still unused) state */
+			if (vxInt(&c, "used", 0))
+			{	/* re-Start of a USED state: a first Start with another key and one processed message come before */
+				octet k0[32]; octet* m0 = rnd(48); vxRandBuf(k0, 32);
+				if (!strcmp(f, "wbl")) { beltWBLStart(st, k0, klen); beltWBLStepE(m0, 48, st); }
+				else if (!strcmp(f, "ecb")) { beltECBStart(st, k0, klen); beltECBStepE(m0, 48, st); }
+				else if (!strcmp(f, "cbc")) { beltCBCStart(st, k0, klen, iv); beltCBCStepE(m0, 48, st); }
+				else if (!strcmp(f, "cfb")) { beltCFBStart(st, k0, klen, iv); beltCFBStepE(m0, 33, st); }
+				else if (!strcmp(f, "ctr")) { beltCTRStart(st, k0, klen, iv); beltCTRStepE(m0, 33, st); }
+				else if (!strcmp(f, "bde")) { beltBDEStart(st, k0, klen, iv); beltBDEStepE(m0, 48, st); }
+				else if (!strcmp(f, "sde")) { beltSDEStart(st, k0, klen); beltSDEStepE(m0, 48, iv, st); }
+				else if (!strcmp(f, "mac")) { octet t0[8]; beltMACStart(st, k0, klen); beltMACStepA(m0, 33, st); beltMACStepG(t0, st); }
+				else if (!strcmp(f, "dwp")) { octet t0[8]; beltDWPStart(st, k0, klen, iv); beltDWPStepI(m0, 7, st); beltDWPStepE(m0, 33, st); beltDWPStepA(m0, 33, st); beltDWPStepG(t0, st); }
+				else if (!strcmp(f, "che")) { octet t0[8]; beltCHEStart(st, k0, klen, iv); beltCHEStepI(m0, 7, st); beltCHEStepE(m0, 33, st); beltCHEStepA(m0, 33, st); beltCHEStepG(t0, st); }
+				else if (!strcmp(f, "krp")) { octet o0[32]; beltKRPStart(st, k0, klen, level); beltKRPStepG(o0, klen, hdr, st); }
+				else if (!strcmp(f, "fmt")) { u16* w0 = (u16*)malloc(2 * len); size_t j; for (j = 0; j < len; ++j) w0[j] = (u16)(vxRand64() % mod); beltFMTStart(st, mod, len, k0, klen); beltFMTStepE(w0, iv, st); free(w0); }
+				free(m0);
+			}
+			memcpy(buf, ksnap, klen);		/* the key inside the state */
 			jBegin();
 			if (!strcmp(f, "wbl")) { beltWBLStart(st, buf, klen); beltWBLStepE(out, len, st); jStr("op", "wblE"); }
 			else if (!strcmp(f, "ecb")) { beltECBStart(st, buf, klen); beltECBStepE(out, len, st); jStr("op", "ecbE"); }
@@ -368,6 +385,7 @@ int ovstateMain(void)
 				for (i = 0; i < len; ++i) a[i] = w[i]; jIntArr("out", a, len);
 			}
 			jStr("cls", "ovstate"); jStr("f", f); jStr("kind", kind); jStr("pos", pos); if (vxArg(&c, "off")) jInt("off", off);	/* a symbolic position resolves to a word-size dependent offset: not logged */
+			jInt("used", vxInt(&c, "used", 0));
 			jOct("key", ksnap, klen);
 			if (!strcmp(f, "mac")) { jOct("in", msg, len); jOct("out", tag, 8); }
 			else if (!strcmp(f, "krp")) jOct("out", out, klen);
